@@ -59,6 +59,16 @@ def check(tree, rep, tier='quick', seed=0):
                 cnt = ix.args[1] if isinstance(ix, E) and ix.op == 'idx' else None
                 if not (isinstance(cnt, E) and cnt.op == 'i' and cnt.ty == 'int'):
                     bad.append(f'copies are enumerated up to a computed bound ({cnt!r}) instead of the declared count: which copies are visited depends on their numbering')
+                else:
+                    # the bound is the declared count of the very form whose copies are read (number_<form>)
+                    var = ix.args[0] if isinstance(ix.args[0], str) else None
+                    body = e.args[2] if e.op in ('sumn', 'countif') else e.args[1]
+                    forms = set()
+                    walk(body, lambda x: forms.update(re.findall(r'^([^:{}.]+):\{' + re.escape(var or 'n') + r'\}', x.args[0])) if x.op in ('i', 'v') and isinstance(x.args[0], str) else None)
+                    cname = str(cnt.args[0]).rsplit('.', 1)[-1]
+                    for fm in sorted(forms):
+                        if cname != f'number_{fm}':
+                            bad.append(f'copies of {fm} are enumerated up to {cnt.args[0]} (the count of another form): copies numbered at or above that count are dropped, so renumbering changes the result')
             if e.op == 'countif':
                 pass
             if e.op in ('i', 'v') and isinstance(e.args[0], str) and '{' in e.args[0]:
@@ -152,6 +162,8 @@ def check(tree, rep, tier='quick', seed=0):
                 rep.ob('R16.3', f'{y}/{l["line"]}<-{src}', not bad,
                        f'{y} {l["line"]}: an extra dollar of {src} does not move the line by exactly one dollar on every path: {bad[:2]}', d.where,
                        sample={'line': f'{y}/{l["line"]}', 'source': src})
+    from .c15 import balance_identities
+    balance_identities(an, rep)          # refund-minus-owed = payments - tax on every path (the identity the withholding relation rests on)
     n_el = election_consistency(an, rep)
     n_nc = nc_withholding_split(an, rep)
     n_mono = monotone_directions(an, rep, tier)
